@@ -46,6 +46,9 @@ def run(ctx):
     ctx.validate("NetListTrace", nt, lambda ev, inv: "%s:%s" % (inv, ev.get("via", "lookup")),
                  only=["Inv_C07_", "Unconsumable"], require_events=20000, timeout=1800)
     ctx.extra["tlc_range_lists_replayed"] = len(lists)
+    ht = ctx.path("hot.ndjson")
+    ctx.driver(cdrv, ["-out", ht, "-pairs", 2000], timeout=600)
+    ctx.validate("MemCacheTrace", ht, lambda ev, inv: "%s:memcache" % inv, only=["Inv_C07_", "Unconsumable"], require_events=100)
     args = ["-thorough"] if not ctx.quick else []
     trace, _ = routerfam.run_mode(ctx, drv, "c07", args)
     routerfam.validate(ctx, trace, only=["Inv_C07_", "Unconsumable"], require_events=600)
